@@ -343,8 +343,14 @@ pub trait Language: Debug + Clone + Hash + Eq + Ord {
         }
 
         let mut c = self.clone();
+        // a slot that `m` doesn't cover gets one fresh name, shared by all of its occurrences.
+        let mut m = m.clone();
         for x in c.public_slot_occurrences_mut() {
-            let y = m.get(*x).unwrap_or_else(Slot::fresh);
+            let y = m.get(*x).unwrap_or_else(|| {
+                let y = Slot::fresh();
+                m.insert(*x, y);
+                y
+            });
 
             // If y collides with a private slot, we have a problem.
             if CHECKS {
